@@ -102,7 +102,10 @@ def do_replay(prop, modname, idx, ob, outdir):
                     % ob['name'])
         return path, None, ''
     with open(path, 'w') as f:
-        f.write(header + script.replace('sys.exit(1', 'print("REPRODUCED"); sys.exit(1'))
+        import re as _re
+        body = _re.sub(r'sys\.exit\(1 if (.*) else 0\)', r'sys.exit(_rc(\1))', script)
+        body = body.replace('sys.exit(1)', 'sys.exit(_rc(True))')
+        f.write(header + 'def _rc(bad):\n    if bad:\n        print("REPRODUCED")\n    return 1 if bad else 0\n' + body)
     try:
         p = subprocess.run([REPLAY_PY, path], capture_output=True, text=True, timeout=120,
                            env=dict(os.environ, PYTHONPATH=contract.REPO))
@@ -120,6 +123,7 @@ def main(argv=None):
     ap.add_argument('--jobs', type=int, default=int(os.environ.get('PYVC_JOBS', '16')))
     ap.add_argument('-v', action='store_true')
     ap.add_argument('--no-evidence', action='store_true')
+    ap.add_argument('--failures', action='store_true', help='list every failing obligation with its path (development)')
     a = ap.parse_args(argv)
     t0 = time.time()
     seed = int(os.environ.get('VERIF_SEED', '0') or 0)
@@ -196,6 +200,9 @@ def main(argv=None):
                     known_hit.append((k, ob))
                 else:
                     violations.append((modname, idx, ob))
+    if a.failures:
+        for modname, idx, ob in violations:
+            print('FAIL %s [%s] %s' % (ob['name'], ob['path'], (ob.get('detail') or '')[:200]))
     # report
     code = 0
     seen_known = set()
